@@ -264,19 +264,38 @@ def check_next(e, kind, it, outs, ip, ti, oi, n, ok):
                 return REFUTED, "successor step has an overflow check that fails when a word is all ones (%s in %s): panics with overflow checks, wraps without" % (o.info.get("msg"), o.info.get("fn"))
             return UNDECIDED, "possible panic %s" % o.info.get("msg")
     if not ok:
-        if len(rets) != 1:
-            return UNDECIDED, "%d paths" % len(rets)
-        o = rets[0]
-        r = o.value
-        if not (isinstance(r, Agg) and r.key == OPTION):
-            return UNDECIDED, "result %r" % (r,)
-        if r.variant != 0:
-            return REFUTED, "an exhausted iterator yields another item"
-        itv = it.read_ptr(o.state, ip)
-        v, d = check_table_value(e, kind, it, o.state, itv.fields[ti], n, S.identity(n), o.pc)
-        if v == REFUTED:
-            return UNDECIDED, "exhausted iterator changes its table (unobservable)"
-        return PROVED, ""
+        # an exhausted iterator returns None on every path and stays exhausted (a consumer such as `zip` polls again
+        # after the end: a flag that comes back on would yield the functions a second time)
+        verdict = (PROVED, "")
+        live = 0
+        for o in rets:
+            s, w = pc_status(o.pc) if o.pc else ("sat", None)
+            if s == "unsat":
+                continue
+            live += 1
+            r = o.value
+            if not (isinstance(r, Agg) and r.key == OPTION):
+                return UNDECIDED, "result %r" % (r,)
+            if r.variant != 0:
+                return REFUTED, "an exhausted iterator yields another item"
+            itv = it.read_ptr(o.state, ip)
+            fl = itv.fields[oi]
+            if isinstance(fl, W) and fl.val is not None:
+                if fl.val == 1 and s == "sat":
+                    return REFUTED, "an exhausted iterator is live again after returning None (its flag is set by that call%s): polling it once more yields functions a second time" % (", e.g. for %s" % w if w else "")
+                if fl.val == 1:
+                    verdict = (UNDECIDED, "flag set on a path of unknown feasibility")
+            elif isinstance(fl, W):
+                s2, w2 = pc_status(tuple(o.pc) + (fl,))
+                if s2 == "sat":
+                    return REFUTED, "an exhausted iterator can be live again after returning None (flag %s, e.g. for %s)" % (B.describe(fl.bits[0]), w2)
+                if s2 != "unsat":
+                    verdict = (UNDECIDED, "flag after the end not decided")
+            else:
+                verdict = (UNDECIDED, "flag %r" % (fl,))
+        if not live:
+            return UNDECIDED, "no return path"
+        return verdict
     # live iterator
     if n <= 2:
         # exact: all paths merged or few; compare bits with a + 1 mod 2^(2^n)
